@@ -42,7 +42,10 @@ class SelectNode:
             if not env.envtype == EnvType.DOCS:
                 value.convert(self.units_raw, env)
         elif self.keyword=='str':
-            value = StringType(self.cast_value(node.value_raw))
+            if isinstance(node.value_raw, str) and node.value_raw=='' and not (node.value_ref or node.value_fn or node.value_expr):
+                value = StringType('')      # the empty string literal is an option like any other
+            else:
+                value = StringType(self.cast_value(node.value_raw))
         self.options.append(Option(
             value=value,
             value_raw=node.value_raw,
